@@ -55,6 +55,9 @@ type Case struct {
 	// ViaAPI: the schema is given to the root through the Go API (hx.BuildAPI, interfaces without
 	// their Root member) instead of as SDL text
 	ViaAPI bool `json:"via_api,omitempty"`
+	// RefusedSDL: a document the root refuses (in validation) is given to it after everything else was
+	// loaded - a hot reload with a mistake in it; the root keeps serving
+	RefusedSDL string `json:"refused_sdl,omitempty"`
 	// ExtraSDL is loaded after the schema (extensions the harness' schema model does not describe,
 	// e.g. a field no Go member answers to).
 	ExtraSDL string `json:"extra_sdl,omitempty"`
@@ -683,6 +686,11 @@ func NewWorld(c *Case) (*World, error) {
 	if c.ExtraSDL != "" {
 		if err := w.Root.ParseString(c.ExtraSDL); err != nil {
 			return nil, fmt.Errorf("extra SDL rejected: %w\n%s", err, c.ExtraSDL)
+		}
+	}
+	if c.RefusedSDL != "" {
+		if err := w.Root.ParseString(c.RefusedSDL); err == nil {
+			return nil, fmt.Errorf("the document meant to be refused was accepted:\n%s", c.RefusedSDL)
 		}
 	}
 	if c.Universe {
